@@ -192,6 +192,9 @@ func c07(c *ev.Ctx) {
 	})
 	c07Limits(c)
 	c07Fixed(c)
+	// loops abandoned by return / error in one run, later runs that skip them and enter
+	// other loops mentioning their names (the stream is shared with C02)
+	c02ExitHistories(c)
 }
 
 // c07Limits: failing runs deep inside recursion must not use up the call-depth budget
